@@ -3,7 +3,7 @@ import copy
 import html
 import re
 
-from harness.core import Property
+from harness.core import Property, CaseTimeout
 from harness.props import markup_common as mc
 from harness.props.markup_common import S, M, B, I
 
@@ -55,6 +55,38 @@ def _rand_bind(rng):
         m = mc.hostile(rng, 5)
         members.append(m.strip() if strip else m)
     return {"kind": "array", "name": name, "strip": strip, "members": members, "u": mc.array_u(members)}
+
+
+HOSTILE_NAMES = ["a\tb", "a\nonclick=x", "CLASS", "x\0y", 'a"b', "a b", "a>b", "a/b", "a=b", "é", "x<y", "a'b", "Data-X", "a\rb",
+                 "a\x0cb", "_", "1a"]
+NAME_GRAMMAR = re.compile(r"[A-Za-z][A-Za-z0-9_:.\-]*\Z")
+
+
+def _hostile_name_case(rng):
+    """tag / attribute NAMES outside the declared grammar.  Names are chosen by the template author (identifiers in
+    template source), not data: the property does not speak about them and the oracle skips these cases; they are
+    generated so that model and code are compared on them too (what the generator emits is still pinned)."""
+    c = _rand_case(rng)
+    while c["k"] != "tag":
+        c = _rand_case(rng)
+    if rng.random() < 0.5:
+        c["via"], c["tag"] = "tag", rng.choice(HOSTILE_NAMES)
+    else:
+        c["kwargs"].insert(rng.randint(0, len(c["kwargs"])), [rng.choice(HOSTILE_NAMES), S(mc.hostile(rng, 6))])
+    c["parse"] = False
+    c["hostile_names"] = True
+    return c
+
+
+def _names_in_grammar(case):
+    """tag (for tag()) and every attribute name (after '_' stripping) are of the declared grammar; attribute names lower case"""
+    if case["via"] == "tag" and not NAME_GRAMMAR.match(case["tag"]):
+        return False
+    for k, _ in case["kwargs"]:
+        k = k.rstrip("_")
+        if not NAME_GRAMMAR.match(k) or k != k.lower():
+            return False
+    return True
 
 
 def _rand_case(rng):
@@ -149,6 +181,7 @@ class C11(Property):
         "Flatland.C11.Proofs.parse_render_generic",
         "Flatland.C11.Proofs.parse_render",
         "Flatland.C11.Proofs.transform_good",
+        "Flatland.C12.Proofs.transform_frame",
         "Flatland.C11.Proofs.callTag_parses",
         "Flatland.C11.Proofs.x_unescapes",
         "Flatland.C11.Proofs.xa_unescapes",
@@ -160,6 +193,7 @@ class C11(Property):
         "Flatland.C11.Proofs.textChain_ok",
         "Flatland.C11.Proofs.xChain_ok",
         "Flatland.C11.Proofs.xaChain_ok",
+        "Flatland.C11.Proofs.voids_agree",
     ]
     level_text = "proof"
     level_note = ("escape chains are regenerated from the source and the theorems re-instantiated by `decide` on every run; "
@@ -167,14 +201,21 @@ class C11(Property):
                   "agreement with the code and html.parser's agreement with the mini parser rest on correspondence")
     technique = "generic theorems over .replace chains + decidable side condition on regenerated tables; parse∘render = id"
     trusted_base = [
-        "python html.parser (3.12) as the 'standard HTML parser' of the statement; the Lean mini parser covers exactly the "
+        "python html.parser (3.12.1) as the 'standard HTML parser' of the statement; the Lean mini parser covers exactly the "
         "generator's output grammar and is compared with html.parser on every data-only case",
+        "html.parser 3.12 differs from the WHATWG tokenizer on characters the generator does use: it keeps NUL (WHATWG: U+FFFD) and "
+        "CR / CRLF (WHATWG: LF) verbatim and does not drop the newline after <textarea>; 'attributes and text equal the "
+        "intended strings' is established relative to html.parser; no break-out is affected (KF-C12-f records the textarea newline)",
         "explicit contents= and Markup(...) values are author-supplied markup, tag/attribute names author-chosen identifiers",
     ]
     assumptions = [
-        "attribute/tag names are ASCII identifiers ([A-Za-z][A-Za-z0-9_:.-]*); values are str or Markup; bool/Maybe only for auto_* options",
+        "BOUNDARY: the property is about DATA (element names, element text, attribute values).  Tag names and attribute names "
+        "are chosen by the template author; the theorems assume the grammar [A-Za-z][A-Za-z0-9_:.-]* in lower case (lowerName), the "
+        "oracle skips cases with names outside it (a newline or '=' in a tag name does split the tag: tag('a\\nonclick=x') "
+        "parses as <a onclick=x>); such names are still generated and compared model-vs-code",
+        "attribute values are str or Markup; bool/Maybe only for auto_* options; element text is an exact str (el.set(Markup(..)) "
+        "leaves a Markup in el.u, which renders verbatim: author-marked markup, not data)",
         "strings contain no lone surrogates",
-        "browsers drop one leading newline of <textarea>; html.parser does not (limit of 'a standard HTML parser')",
     ]
     rule = ("one Generator call per case: tag kind (7 properties + tag() with void/non-void/custom/upper-case names), markup "
             "xml/xhtml/html, ordered/unordered attributes, optional bind (String/Boolean/Array with hostile name and text), 0-6 "
@@ -183,6 +224,7 @@ class C11(Property):
             "ampersand, ;, #, control characters, NUL, closing-tag look-alikes, half-finished references, non-BMP.  non-trivial = "
             "some data string contains one of \" < > & or a control character; distinct = distinct canonical case JSON")
     quick_n = 100000
+    case_timeout = 60      # the machine is shared: a stalled worker must not look like a hang of the library
     thorough_n = 600000
 
     # ------------------------------------------------------------------ cases
@@ -214,8 +256,11 @@ class C11(Property):
 
     def generate(self, rng, n, tier):
         for _ in range(n):
-            if rng.random() < 0.12:
+            r = rng.random()
+            if r < 0.12:
                 yield {"k": "sugar", "u": mc.hostile(rng, 12)}
+            elif r < 0.15:
+                yield _hostile_name_case(rng)
             else:
                 yield _rand_case(rng)
 
@@ -232,6 +277,8 @@ class C11(Property):
             out = _render(case)
         except AssertionError:
             raise
+        except CaseTimeout:
+            raise
         except Exception as e:  # noqa
             return {"out": None, "err": type(e).__name__, "parsed": None}
         parsed = None
@@ -246,10 +293,15 @@ class C11(Property):
     def oracle(self, case):
         if case["k"] == "sugar":
             return self._oracle_sugar(case)
+        if not _names_in_grammar(case):
+            # tag / attribute names outside [A-Za-z][A-Za-z0-9_:.-]* are the template author's doing, not data
+            return []
         fails = []
         try:
             out = _render(case)
         except AssertionError:
+            raise
+        except CaseTimeout:
             raise
         except Exception as e:  # noqa
             return [{"clause": "renders", "expected": "markup", "observed": type(e).__name__}]
@@ -379,6 +431,8 @@ class C11(Property):
         t.append("ordered=%s" % ordered)
         if case["raw_markup"]:
             t.append("has-verbatim-markup")
+        if not _names_in_grammar(case):
+            t.append("names-outside-grammar(oracle-skipped)")
         if case["parse"]:
             t.append("parsed-compared")
         for k, _ in case["kwargs"]:
